@@ -33,6 +33,86 @@ Proof. destruct v as [|p]; [reflexivity|]. destruct p; cbn; discriminate. Qed.
 
 Arguments pow2 : simpl never.
 
+
+Lemma pos_eqb_eq (a b : pos) : pos_eqb a b = true <-> a = b.
+Proof.
+  destruct a as [i h], b as [j k]. unfold pos_eqb. cbn [fst snd].
+  rewrite andb_true_iff, N.eqb_eq, Nat.eqb_eq. split; [intros [-> ->]; reflexivity|intros Heq; inversion Heq; auto].
+Qed.
+
+Lemma assoc_good {B} (f : pos -> B) k (l : list (pos * B)) :
+  (forall k' d, In (k', d) l -> d = f k') -> In k (map fst l) -> assoc pos_eqb k l = Some (f k).
+Proof.
+  induction l as [|[k' d] l IH]; intros Hall Hin; cbn [assoc]; [destruct Hin|].
+  destruct (pos_eqb k k') eqn:Heq.
+  - apply pos_eqb_eq in Heq. subst k'. rewrite (Hall k d); [reflexivity|left; reflexivity].
+  - apply IH.
+    + intros k2 d2 Hin2. apply Hall. right. exact Hin2.
+    + destruct Hin as [Hh|Ht]; [|exact Ht]. cbn in Hh. subst k'.
+      assert (pos_eqb k k = true) as Hk by (apply pos_eqb_eq; reflexivity). congruence.
+Qed.
+
+Lemma assoc_in {B} k (l : list (pos * B)) d : assoc pos_eqb k l = Some d -> In (k, d) l.
+Proof.
+  induction l as [|[k' d'] l IH]; cbn [assoc]; [discriminate|].
+  destruct (pos_eqb k k') eqn:Heq.
+  - apply pos_eqb_eq in Heq. subst k'. intros Hs. injection Hs as ->. left; reflexivity.
+  - intros Hs. right. apply IH. exact Hs.
+Qed.
+
+Lemma assoc_none {B} k (l : list (pos * B)) : ~ In k (map fst l) -> assoc pos_eqb k l = None.
+Proof.
+  induction l as [|[k' d'] l IH]; cbn [assoc]; [reflexivity|]. intros Hn.
+  destruct (pos_eqb k k') eqn:Heq.
+  - apply pos_eqb_eq in Heq. subst k'. exfalso. apply Hn. left. reflexivity.
+  - apply IH. intros Hin. apply Hn. right. exact Hin.
+Qed.
+
+Lemma path_get_good {B} (f : pos -> B) (p : list (pos * B)) k :
+  (forall k' d, In (k', d) p -> d = f k') -> In k (map fst p) -> path_get p k = Some (f k).
+Proof.
+  intros Hall Hin. unfold path_get. apply assoc_good.
+  - intros k' d Hd. apply Hall. apply in_rev. exact Hd.
+  - rewrite map_rev. apply -> in_rev. exact Hin.
+Qed.
+
+
+Lemma assoc_app {B} k (l1 l2 : list (pos * B)) :
+  assoc pos_eqb k (l1 ++ l2) = match assoc pos_eqb k l1 with Some d => Some d | None => assoc pos_eqb k l2 end.
+Proof.
+  induction l1 as [|[k' d] l1 IH]; cbn [app assoc]; [reflexivity|].
+  destruct (pos_eqb k k'); [reflexivity|exact IH].
+Qed.
+
+Lemma assoc_none_inv {B} k (l : list (pos * B)) : assoc pos_eqb k l = None -> ~ In k (map fst l).
+Proof.
+  induction l as [|[k' d] l IH]; cbn [assoc map fst]; [intros _ []|].
+  destruct (pos_eqb k k') eqn:Heq; [discriminate|]. intros Hn [Hh|Ht].
+  - subst k'. assert (pos_eqb k k = true) by (apply pos_eqb_eq; reflexivity). congruence.
+  - exact (IH Hn Ht).
+Qed.
+
+(* positions the code visits are aligned: index = k * 2^height *)
+Definition aligned (i : N) (h : nat) : Prop := exists k, i = k * pow2 h.
+Lemma aligned_left i h : aligned i (S h) -> aligned i h.
+Proof. intros [k ->]. exists (2 * k). rewrite pow2_S. lia. Qed.
+Lemma aligned_right i h : aligned i (S h) -> aligned (i + pow2 h) h.
+Proof. intros [k ->]. exists (2 * k + 1). rewrite pow2_S. lia. Qed.
+Lemma aligned_0 h : aligned 0 h.
+Proof. exists 0. lia. Qed.
+
+
+Lemma pow2_divides k h : (k <= h)%nat -> exists q, pow2 h = q * pow2 k.
+Proof. intros Hkh. induction Hkh as [|m Hm [q Hq]]; [exists 1; lia|]. exists (2 * q). rewrite pow2_S. lia. Qed.
+
+(* two aligned positions: the lower one ends before the higher one starts *)
+Lemma aligned_step j k x h : aligned j k -> aligned x h -> (k <= h)%nat -> j < x -> j + pow2 k <= x.
+Proof.
+  intros [b ->] [a ->] Hkh Hlt. destruct (pow2_divides k h Hkh) as [q Hq]. rewrite Hq in *.
+  pose proof (pow2_pos k) as Hp.
+  assert (b < a * q) by nia. assert (b + 1 <= a * q) by lia. nia.
+Qed.
+
 Section Proofs.
   Variables D E V : Type.
   Variable H : hin D E V -> D.
@@ -202,5 +282,782 @@ Section Proofs.
     unfold HistSpec.root in Heq. rewrite <- Hh in Heq.
     pose proof (bitlen_gt v') as Hg.
     apply (verify_sound A (bitlen v') c 0 idx v' v e); [lia|lia|exact Hle|lia|exact Heq].
+  Qed.
+
+  (* ------------------------------------------------------------------ membership: completeness (C01, history half) *)
+  Definition StoreOK (A : N -> E) (c : cache D) (vs : N) : Prop :=
+    forall i h, aligned i h -> i + pow2 h <= vs + 1 -> c (i, h) = Some (fz A i h).
+
+  Definition nodeP (A : N -> E) (v : N) (p : pos) : D := node A v (fst p) (snd p).
+
+  (* positions pruneToVerify reads from the audit path *)
+  Fixpoint vreads (idx v i : N) (h : nat) : list pos :=
+    match h with
+    | O => []
+    | S h' =>
+        let ri := i + pow2 h' in
+        if idx <? ri then vreads idx v i h' ++ (if v <? ri then [] else [(ri, h')])
+        else (i, h') :: vreads idx v ri h'
+    end.
+
+  Lemma verify_complete (A : N -> E) h : forall (c : cache D) i idx v,
+    i <= idx -> idx < i + pow2 h -> idx <= v ->
+    (forall p, In p (vreads idx v i h) -> c p = Some (nodeP A v p)) ->
+    interp c (verify_go idx v (A idx) i h) = Some (node A v i h).
+  Proof.
+    induction h as [|h IH]; intros c i idx v Hlo Hhi Hv Hc.
+    - rewrite pow2_0 in Hhi. assert (idx = i) by lia. subst idx. reflexivity.
+    - rewrite pow2_S in Hhi. pose proof (pow2_pos h) as Hp.
+      cbn [HistModel.verify_go HistSpec.node vreads] in *.
+      destruct (idx <? i + pow2 h) eqn:Hidx.
+      + apply N.ltb_lt in Hidx.
+        assert (Hl : interp c (verify_go idx v (A idx) i h) = Some (node A v i h)).
+        { apply IH; [lia|lia|lia|]. intros p Hp'. apply Hc. apply in_or_app. left. exact Hp'. }
+        destruct (v <? i + pow2 h) eqn:Hcv; cbn [HistModel.interp]; rewrite Hl; [reflexivity|].
+        rewrite (Hc (i + pow2 h, h)); [reflexivity|]. apply in_or_app. right. left. reflexivity.
+      + apply N.ltb_ge in Hidx.
+        destruct (v <? i + pow2 h) eqn:Hcv; [apply N.ltb_lt in Hcv; lia|].
+        cbn [HistModel.interp]. rewrite (Hc (i, h)); [|left; reflexivity].
+        rewrite (IH c (i + pow2 h) idx v); [reflexivity|lia|lia|lia|].
+        intros p Hp'. apply Hc. right. exact Hp'.
+  Qed.
+
+  Lemma inr_true x i h : inr x i h = true <-> i <= x /\ x < i + pow2 h.
+  Proof. unfold inr. rewrite andb_true_iff, N.leb_le, N.ltb_lt. reflexivity. Qed.
+  Lemma inr_false x i h : inr x i h = false <-> x < i \/ i + pow2 h <= x.
+  Proof. unfold inr. rewrite andb_false_iff, N.leb_gt, N.ltb_ge. reflexivity. Qed.
+
+  Section Prover.
+    Variable A : N -> E.
+    Variable st : cache D.
+    Variable vs : N.
+    Hypothesis Hst : StoreOK A st vs.
+
+    Lemma store_frozen v i h : aligned i h -> v <= vs -> i + pow2 h <= v + 1 -> st (i, h) = Some (node A v i h).
+    Proof. intros Ha Hv Hf. rewrite (frozen_fz A v i h Hf). apply Hst; [exact Ha|lia]. Qed.
+
+    (* the "shortcut" traversal recomputes the hash of a subtree that does not contain the index *)
+    Lemma findc_short_value idx v h : forall i,
+      aligned i h -> v <= vs -> i <= v -> inr idx i h = false ->
+      interp st (@findc_short E idx v i h) = Some (node A v i h).
+    Proof.
+      induction h as [|h IH]; intros i Ha Hv Hi Hidx.
+      - cbn [findc_short]. rewrite Hidx. cbn [orb].
+        destruct (inr v i 0) eqn:Hvi; cbn [negb].
+        + apply inr_true in Hvi. rewrite pow2_0 in Hvi.
+          destruct (i =? idx) eqn:Hii.
+          { apply N.eqb_eq in Hii. apply inr_false in Hidx. rewrite pow2_0 in Hidx. lia. }
+          cbn [HistModel.interp]. apply store_frozen; [exact Ha|exact Hv|rewrite pow2_0; lia].
+        + cbn [HistModel.interp]. apply inr_false in Hvi. rewrite pow2_0 in Hvi.
+          apply store_frozen; [exact Ha|exact Hv|rewrite pow2_0; lia].
+      - pose proof (pow2_pos h) as Hp.
+        cbn [findc_short]. rewrite Hidx. cbn [orb].
+        destruct (inr v i (S h)) eqn:Hvi; cbn [negb].
+        + apply inr_true in Hvi. rewrite pow2_S in Hvi. apply inr_false in Hidx. rewrite pow2_S in Hidx.
+          assert (Hl : interp st (@findc_short E idx v i h) = Some (node A v i h)).
+          { apply IH; [apply aligned_left; exact Ha|exact Hv|lia|apply inr_false; lia]. }
+          cbn [HistSpec.node].
+          destruct (v <? i + pow2 h) eqn:Hcv; cbn [HistModel.interp]; rewrite Hl; [reflexivity|].
+          apply N.ltb_ge in Hcv.
+          rewrite (IH (i + pow2 h)); [reflexivity|apply aligned_right; exact Ha|exact Hv|lia|apply inr_false; lia].
+        + cbn [HistModel.interp]. apply inr_false in Hvi.
+          apply store_frozen; [exact Ha|exact Hv|lia].
+    Qed.
+
+    (* what pruneToFindConsistent collects: all values are spec values, every position the verifier
+       reads is collected, and the traversal never panics *)
+    Lemma findc_collect idx v h : forall i,
+      aligned i h -> v <= vs -> idx <= v -> idx <> v -> inr idx i h = true ->
+      interp st (@findc_go E idx v i h) <> None /\
+      (forall p d, In (p, d) (collect st (@findc_go E idx v i h)) -> d = nodeP A v p) /\
+      (forall p, In p (vreads idx v i h) -> In p (map fst (collect st (@findc_go E idx v i h)))).
+    Proof.
+      induction h as [|h IH]; intros i Ha Hv Hle Hne Hidx.
+      - cbn [findc_go]. rewrite Hidx. cbn [orb negb].
+        apply inr_true in Hidx. rewrite pow2_0 in Hidx. assert (i = idx) by lia. subst i.
+        rewrite N.eqb_refl. cbn. repeat split; [discriminate|intros ? ? []|intros ? []].
+      - pose proof (pow2_pos h) as Hp.
+        cbn [findc_go]. rewrite Hidx. cbn [orb negb andb].
+        apply inr_true in Hidx. rewrite pow2_S in Hidx.
+        cbn [vreads].
+        (* the sibling subtree (not containing idx) collected as a whole *)
+        assert (Hsib : forall j, aligned j h -> j <= v -> inr idx j h = false ->
+                  interp st (@findc_go E idx v j h) = Some (node A v j h) /\
+                  collect st (@findc_go E idx v j h) = [((j, h), node A v j h)]).
+        { intros j Haj Hj Hnot.
+          assert (Hval : interp st (@findc_short E idx v j h) = Some (node A v j h))
+            by (apply findc_short_value; assumption).
+          destruct h as [|h'].
+          - cbn [findc_go]. rewrite Hnot. cbn [orb].
+            assert (Hg : st (j, O) = Some (node A v j 0)).
+            { apply store_frozen; [exact Haj|exact Hv|rewrite pow2_0; lia]. }
+            destruct (inr v j 0); cbn [negb].
+            + destruct (j =? idx) eqn:Hji.
+              { apply N.eqb_eq in Hji. apply inr_false in Hnot. rewrite pow2_0 in Hnot. lia. }
+              cbn. rewrite Hg. split; reflexivity.
+            + cbn. rewrite Hg. split; reflexivity.
+          - cbn [findc_go]. rewrite Hnot. cbn [orb].
+            destruct (inr v j (S h')) eqn:Hvj; cbn [negb andb].
+            + assert (Hnv : (idx =? v) = false) by (apply N.eqb_neq; exact Hne).
+              rewrite Hnv. cbn [negb HistModel.interp HistModel.collect op_pos].
+              rewrite Hval. split; [reflexivity|].
+              assert (Hcs : forall k hh, collect st (@findc_short E idx v k hh) = []).
+              { intros k hh. revert k. induction hh as [|hh IHh]; intros k; cbn [findc_short].
+                - destruct (negb _); [reflexivity|]. destruct (k =? idx); reflexivity.
+                - destruct (negb _); [reflexivity|]. destruct (v <? _); cbn [HistModel.collect]; rewrite ?IHh; reflexivity. }
+              rewrite Hcs. cbn [app].
+              assert (Hpos : forall k hh, op_pos (@findc_short E idx v k hh) = (k, hh)).
+              { intros k hh. destruct hh; cbn [findc_short]; destruct (negb _); try reflexivity.
+                - destruct (k =? idx); reflexivity.
+                - destruct (v <? _); reflexivity. }
+              rewrite Hpos. reflexivity.
+            + cbn [HistModel.interp HistModel.collect op_pos app].
+              apply inr_false in Hvj.
+              assert (Hg : st (j, S h') = Some (node A v j (S h'))).
+              { apply store_frozen; [exact Haj|exact Hv|lia]. }
+              rewrite Hg. split; reflexivity. }
+        destruct (idx <? i + pow2 h) eqn:Hi1.
+        + apply N.ltb_lt in Hi1.
+          destruct (IH i (aligned_left _ _ Ha) Hv Hle Hne ltac:(apply inr_true; lia)) as (Hn & Hvals & Hreads).
+          destruct (v <? i + pow2 h) eqn:Hcv.
+          * cbn [HistModel.interp HistModel.collect]. rewrite app_nil_r.
+            repeat split.
+            -- destruct (interp st (findc_go idx v i h)); [discriminate|contradiction].
+            -- exact Hvals.
+            -- exact Hreads.
+          * apply N.ltb_ge in Hcv.
+            destruct (Hsib (i + pow2 h) (aligned_right _ _ Ha) Hcv ltac:(apply inr_false; lia)) as (Hsv & Hsc).
+            cbn [HistModel.interp HistModel.collect]. rewrite Hsv, Hsc.
+            repeat split.
+            -- destruct (interp st (findc_go idx v i h)); [discriminate|contradiction].
+            -- intros p d Hin. apply in_app_or in Hin. destruct Hin as [Hin|[Hin|[]]]; [apply Hvals; exact Hin|].
+               injection Hin as <- <-. reflexivity.
+            -- intros p Hin. rewrite map_app. apply in_app_or in Hin. apply in_or_app.
+               destruct Hin as [Hin|Hin]; [left; apply Hreads; exact Hin|right; exact Hin].
+        + apply N.ltb_ge in Hi1.
+          destruct (v <? i + pow2 h) eqn:Hcv; [apply N.ltb_lt in Hcv; lia|].
+          destruct (IH (i + pow2 h) (aligned_right _ _ Ha) Hv Hle Hne ltac:(apply inr_true; lia)) as (Hn & Hvals & Hreads).
+          destruct (Hsib i (aligned_left _ _ Ha) ltac:(lia) ltac:(apply inr_false; lia)) as (Hsv & Hsc).
+          cbn [HistModel.interp HistModel.collect]. rewrite Hsv, Hsc.
+          repeat split.
+          -- destruct (interp st (findc_go idx v (i + pow2 h) h)); [discriminate|contradiction].
+          -- intros p d Hin. cbn [app] in Hin. destruct Hin as [Hin|Hin]; [|apply Hvals; exact Hin].
+             injection Hin as <- <-. reflexivity.
+          -- intros p Hin. cbn [app map fst]. destruct Hin as [Hin|Hin]; [left; exact Hin|right; apply Hreads; exact Hin].
+    Qed.
+
+    (* pruneToFind (index = version): collects the left siblings of the path *)
+    Lemma find_collect v h : forall i,
+      aligned i h -> v <= vs -> inr v i h = true ->
+      interp st (@find_go E v i h) <> None /\
+      (forall p d, In (p, d) (collect st (@find_go E v i h)) -> d = nodeP A v p) /\
+      (forall p, In p (vreads v v i h) -> In p (map fst (collect st (@find_go E v i h)))).
+    Proof.
+      induction h as [|h IH]; intros i Ha Hv Hin.
+      - cbn. repeat split; [discriminate|intros ? ? []|intros ? []].
+      - pose proof (pow2_pos h) as Hp. apply inr_true in Hin. rewrite pow2_S in Hin.
+        cbn [find_go vreads].
+        destruct (v <? i + pow2 h) eqn:Hcv.
+        + apply N.ltb_lt in Hcv.
+          destruct (IH i (aligned_left _ _ Ha) Hv ltac:(apply inr_true; lia)) as (Hn & Hvals & Hreads).
+          cbn [HistModel.interp HistModel.collect]. rewrite app_nil_r. repeat split.
+          * destruct (interp st (find_go v i h)); [discriminate|contradiction].
+          * exact Hvals.
+          * exact Hreads.
+        + apply N.ltb_ge in Hcv.
+          destruct (IH (i + pow2 h) (aligned_right _ _ Ha) Hv ltac:(apply inr_true; lia)) as (Hn & Hvals & Hreads).
+          assert (Hg : st (i, h) = Some (node A v i h)).
+          { apply store_frozen; [apply aligned_left; exact Ha|exact Hv|lia]. }
+          cbn [HistModel.interp HistModel.collect op_pos]. rewrite Hg. cbn [app]. repeat split.
+          * destruct (interp st (find_go v (i + pow2 h) h)); [discriminate|contradiction].
+          * intros p d Hi'. destruct Hi' as [Hi'|Hi']; [injection Hi' as <- <-; reflexivity|apply Hvals; exact Hi'].
+          * intros p Hi'. cbn [map fst]. destruct Hi' as [Hi'|Hi']; [left; exact Hi'|right; apply Hreads; exact Hi'].
+    Qed.
+
+    (* HistoryTree.ProveMembership followed by MembershipProof.Verify recomputes the authentic root *)
+    Theorem membership_complete idx v :
+      idx <= v -> v <= vs ->
+      exists path, prove_membership D E V H st idx v = Some path /\
+                   membership_root D E V H (path_get path) idx v (A idx) = Some (root A v).
+    Proof.
+      intros Hle Hv. unfold prove_membership, membership_root, pruneToVerify, HistSpec.root.
+      pose proof (bitlen_gt v) as Hg.
+      destruct (idx =? v) eqn:Heq.
+      - apply N.eqb_eq in Heq. subst idx. unfold pruneToFind.
+        destruct (find_collect v (bitlen v) 0 (aligned_0 _) Hv ltac:(apply inr_true; lia)) as (Hn & Hvals & Hreads).
+        destruct (interp st (find_go v 0 (bitlen v))) as [d|]; [|contradiction].
+        eexists. split; [reflexivity|].
+        apply verify_complete; [lia|lia|lia|].
+        intros p Hp. apply (path_get_good (nodeP A v)); [exact Hvals|apply Hreads; exact Hp].
+      - apply N.eqb_neq in Heq. unfold pruneToFindConsistent.
+        destruct (findc_collect idx v (bitlen v) 0 (aligned_0 _) Hv Hle Heq ltac:(apply inr_true; lia)) as (Hn & Hvals & Hreads).
+        destruct (interp st (findc_go idx v 0 (bitlen v))) as [d|]; [|contradiction].
+        eexists. split; [reflexivity|].
+        apply verify_complete; [lia|lia|lia|].
+        intros p Hp. apply (path_get_good (nodeP A v)); [exact Hvals|apply Hreads; exact Hp].
+    Qed.
+  End Prover.
+
+  (* ------------------------------------------------------------------ incremental proofs (C03) *)
+  (* positions pruneToVerifyIncrementalStart / ...End read from the audit path *)
+  Fixpoint sreads (s i : N) (h : nat) : list pos :=
+    match h with
+    | O => [(i, O)]
+    | S h' => let ri := i + pow2 h' in
+              if s <? ri then sreads s i h' else (i, h') :: sreads s ri h'
+    end.
+
+  Fixpoint ereads (s e i : N) (h : nat) : list pos :=
+    if negb (inr s i h || inr e i h) then [(i, h)] else
+    match h with
+    | O => [(i, O)]
+    | S h' => let ri := i + pow2 h' in
+              ereads s e i h' ++ (if e <? ri then [] else ereads s e ri h')
+    end.
+
+  Lemma vstart_complete (A : N -> E) (c : cache D) s h : forall i,
+    inr s i h = true ->
+    (forall p, In p (sreads s i h) -> c p = Some (nodeP A s p)) ->
+    interp c (@vstart_go E s i h) = Some (node A s i h).
+  Proof.
+    induction h as [|h IH]; intros i Hin Hc.
+    - cbn. apply (Hc (i, O)). left. reflexivity.
+    - pose proof (pow2_pos h) as Hp. apply inr_true in Hin. rewrite pow2_S in Hin.
+      cbn [vstart_go sreads HistSpec.node] in *.
+      destruct (s <? i + pow2 h) eqn:Hs.
+      + apply N.ltb_lt in Hs. cbn [HistModel.interp].
+        rewrite (IH i); [reflexivity|apply inr_true; lia|exact Hc].
+      + apply N.ltb_ge in Hs. cbn [HistModel.interp].
+        rewrite (Hc (i, h)); [|left; reflexivity].
+        rewrite (IH (i + pow2 h)); [reflexivity|apply inr_true; lia|].
+        intros p Hp'. apply Hc. right. exact Hp'.
+  Qed.
+
+  Lemma vend_complete (A : N -> E) (c : cache D) s e h : forall i,
+    (forall p, In p (ereads s e i h) -> c p = Some (nodeP A e p)) ->
+    interp c (@vend_go E s e i h) = Some (node A e i h).
+  Proof.
+    induction h as [|h IH]; intros i Hc.
+    - cbn [vend_go ereads] in *. destruct (negb _); cbn; apply (Hc (i, O)); left; reflexivity.
+    - cbn [vend_go ereads] in *. destruct (negb _).
+      + cbn. apply (Hc (i, S h)). left. reflexivity.
+      + cbn [HistSpec.node].
+        assert (Hl : interp c (@vend_go E s e i h) = Some (node A e i h)).
+        { apply IH. intros p Hp. apply Hc. apply in_or_app. left. exact Hp. }
+        destruct (e <? i + pow2 h) eqn:He; cbn [HistModel.interp]; rewrite Hl; [reflexivity|].
+        rewrite (IH (i + pow2 h)); [reflexivity|].
+        intros p Hp. apply Hc. apply in_or_app. right. exact Hp.
+  Qed.
+
+  Lemma sreads_frozen s h : forall i p, inr s i h = true -> In p (sreads s i h) -> fst p + pow2 (snd p) <= s + 1.
+  Proof.
+    induction h as [|h IH]; intros i p Hin Hp.
+    - cbn in Hp. destruct Hp as [<-|[]]. apply inr_true in Hin. rewrite pow2_0 in *. cbn [fst snd]. rewrite pow2_0. lia.
+    - pose proof (pow2_pos h) as Hpp. apply inr_true in Hin. rewrite pow2_S in Hin. cbn [sreads] in Hp.
+      destruct (s <? i + pow2 h) eqn:Hs.
+      + apply N.ltb_lt in Hs. apply (IH i); [apply inr_true; lia|exact Hp].
+      + apply N.ltb_ge in Hs. destruct Hp as [<-|Hp]; [cbn [fst snd]; lia|].
+        apply (IH (i + pow2 h)); [apply inr_true; lia|exact Hp].
+  Qed.
+
+  Section IncrProver.
+    Variable A : N -> E.
+    Variable st : cache D.
+    Variable vs : N.
+    Hypothesis Hst : StoreOK A st vs.
+
+    Lemma checkc_collect s e h : forall i,
+      aligned i h -> e <= vs -> s <= e -> i <= e ->
+      interp st (@checkc_go E s e i h) <> None /\
+      (forall p d, In (p, d) (collect st (@checkc_go E s e i h)) -> d = nodeP A e p) /\
+      (forall p, In p (ereads s e i h) -> In p (map fst (collect st (@checkc_go E s e i h)))).
+    Proof.
+      induction h as [|h IH]; intros i Ha He Hse Hi.
+      - cbn [checkc_go ereads].
+        assert (Hg : st (i, O) = Some (node A e i 0)).
+        { apply (store_frozen A st vs Hst); [exact Ha|exact He|rewrite pow2_0; lia]. }
+        destruct (negb _); cbn; rewrite Hg; (repeat split; [discriminate| |]).
+        all: try (intros p d [Hin|[]]; injection Hin as <- <-; reflexivity).
+        all: intros p [<-|[]]; left; reflexivity.
+      - pose proof (pow2_pos h) as Hp.
+        cbn [checkc_go ereads].
+        destruct (inr s i (S h) || inr e i (S h)) eqn:Hin; cbn [negb].
+        + destruct (IH i (aligned_left _ _ Ha) He Hse Hi) as (Hn & Hvals & Hreads).
+          destruct (e <? i + pow2 h) eqn:Hce.
+          * cbn [HistModel.interp HistModel.collect]. rewrite app_nil_r. repeat split.
+            -- destruct (interp st (checkc_go s e i h)); [discriminate|contradiction].
+            -- exact Hvals.
+            -- exact Hreads.
+          * apply N.ltb_ge in Hce.
+            destruct (IH (i + pow2 h) (aligned_right _ _ Ha) He Hse Hce) as (Hn2 & Hvals2 & Hreads2).
+            cbn [HistModel.interp HistModel.collect]. repeat split.
+            -- destruct (interp st (checkc_go s e i h)); [|contradiction].
+               destruct (interp st (checkc_go s e (i + pow2 h) h)); [discriminate|contradiction].
+            -- intros p d Hi'. apply in_app_or in Hi'. destruct Hi' as [Hi'|Hi']; [apply Hvals|apply Hvals2]; exact Hi'.
+            -- intros p Hi'. rewrite map_app. apply in_app_or in Hi'. apply in_or_app.
+               destruct Hi' as [Hi'|Hi']; [left; apply Hreads|right; apply Hreads2]; exact Hi'.
+        + apply orb_false_iff in Hin. destruct Hin as [_ Hine]. apply inr_false in Hine.
+          assert (Hg : st (i, S h) = Some (node A e i (S h))).
+          { apply (store_frozen A st vs Hst); [exact Ha|exact He|lia]. }
+          cbn. rewrite Hg. repeat split; [discriminate| |].
+          * intros p d [Hi'|[]]. injection Hi' as <- <-. reflexivity.
+          * intros p [<-|[]]. left. reflexivity.
+    Qed.
+
+    Lemma sreads_in_ereads s e h : forall i p,
+      s <= e -> inr s i h = true -> In p (sreads s i h) -> In p (ereads s e i h).
+    Proof.
+      induction h as [|h IH]; intros i p Hse Hin Hp.
+      - cbn [ereads]. rewrite Hin. cbn [orb negb]. exact Hp.
+      - pose proof (pow2_pos h) as Hpp. cbn [ereads]. rewrite Hin. cbn [orb negb].
+        apply inr_true in Hin. rewrite pow2_S in Hin. cbn [sreads] in Hp.
+        destruct (s <? i + pow2 h) eqn:Hs.
+        + apply N.ltb_lt in Hs. apply in_or_app. left. apply IH; [exact Hse|apply inr_true; lia|exact Hp].
+        + apply N.ltb_ge in Hs.
+          destruct (e <? i + pow2 h) eqn:He; [apply N.ltb_lt in He; lia|].
+          apply in_or_app. destruct Hp as [<-|Hp].
+          * left. destruct h as [|h']; cbn [ereads].
+            -- assert (Hn : inr s i 0 || inr e i 0 = false).
+               { apply orb_false_iff. split; apply inr_false; rewrite pow2_0 in *; lia. }
+               rewrite Hn. left. reflexivity.
+            -- assert (Hn : inr s i (S h') || inr e i (S h') = false).
+               { apply orb_false_iff. apply N.ltb_ge in He. split; apply inr_false; lia. }
+               rewrite Hn. left. reflexivity.
+          * right. apply IH; [exact Hse|apply inr_true; lia|exact Hp].
+    Qed.
+
+    (* the start tree (root height bitlen s) sits at the left spine of the end tree *)
+    Lemma ereads_spine s e hs : forall h p,
+      s <= e -> s < pow2 hs -> (hs <= h)%nat -> In p (ereads s e 0 hs) -> In p (ereads s e 0 h).
+    Proof.
+      induction h as [|h IH]; intros p Hse Hs Hle Hp.
+      - assert (hs = O) by lia. subst hs. exact Hp.
+      - destruct (Nat.eq_dec hs (S h)) as [->|Hne]; [exact Hp|].
+        assert (Hle' : (hs <= h)%nat) by lia.
+        assert (Hmono : pow2 hs <= pow2 h).
+        { clear -Hle'. induction Hle' as [|m Hm IHm]; [lia|]. rewrite pow2_S. pose proof (pow2_pos m). lia. }
+        cbn [ereads].
+        assert (Hin : inr s 0 (S h) = true) by (apply inr_true; rewrite pow2_S; lia).
+        rewrite Hin. cbn [orb negb]. apply in_or_app. left. apply IH; assumption.
+    Qed.
+
+    (* Balloon.QueryConsistency + IncrementalProof.Verify: both roots are recomputed *)
+    Theorem incremental_complete s e :
+      s <= e -> e <= vs ->
+      exists path, prove_consistency D E V H st s e = Some path /\
+                   incremental_roots D E V H (path_get path) s e = (Some (root A s), Some (root A e)).
+    Proof.
+      intros Hse He. unfold prove_consistency, incremental_roots, pruneToCheckConsistency,
+        pruneToVerifyIncrementalStart, pruneToVerifyIncrementalEnd, HistSpec.root.
+      destruct (checkc_collect s e (bitlen e) 0 (aligned_0 _) He Hse ltac:(lia)) as (Hn & Hvals & Hreads).
+      destruct (interp st (checkc_go s e 0 (bitlen e))) as [d|]; [|contradiction].
+      eexists. split; [reflexivity|].
+      pose proof (bitlen_gt s) as Hgs. pose proof (bitlen_gt e) as Hge.
+      assert (Hbl : (bitlen s <= bitlen e)%nat).
+      { destruct (le_lt_dec (bitlen s) (bitlen e)) as [Hl|Hl]; [exact Hl|exfalso].
+        destruct (N.eq_dec s 0) as [->|Hs0]; [cbn in Hl; lia|].
+        pose proof (bitlen_le s ltac:(lia)) as Hls.
+        assert (Hm : 2 * pow2 (bitlen e) <= pow2 (bitlen s)).
+        { clear -Hl. induction Hl as [|m Hm IHm]; [rewrite pow2_S; lia|]. rewrite pow2_S. lia. }
+        lia. }
+      f_equal.
+      - apply vstart_complete; [apply inr_true; lia|].
+        intros p Hp.
+        rewrite (path_get_good (nodeP A e)); [| exact Hvals |].
+        + unfold nodeP. f_equal. pose proof (sreads_frozen s (bitlen s) 0 p ltac:(apply inr_true; lia) Hp).
+          apply frozen_stable; lia.
+        + apply Hreads. apply (ereads_spine s e (bitlen s)); [exact Hse|exact Hgs|exact Hbl|].
+          apply sreads_in_ereads; [exact Hse|apply inr_true; lia|exact Hp].
+      - apply vend_complete. intros p Hp.
+        apply (path_get_good (nodeP A e)); [exact Hvals|apply Hreads; exact Hp].
+    Qed.
+  End IncrProver.
+
+  (* ------------------------------------------------------------------ incremental proofs: soundness (C03) *)
+  (* what an accepted proof pins down about the audit path along the path to leaf s *)
+  Fixpoint Lefts (c : cache D) (A : N -> E) (s i : N) (h : nat) : Prop :=
+    match h with
+    | O => c (i, O) = Some (H (HLeaf (A i) i))
+    | S h' => let ri := i + pow2 h' in
+              if s <? ri then Lefts c A s i h'
+              else c (i, h') = Some (fz A i h') /\ Lefts c A s ri h'
+    end.
+
+  Lemma lefts_agree (c : cache D) (A B : N -> E) s h : forall i,
+    inr s i h = true -> Lefts c A s i h -> Lefts c B s i h ->
+    forall k, i <= k -> k <= s -> A k = B k.
+  Proof.
+    induction h as [|h IH]; intros i Hin HA HB k Hk1 Hk2.
+    - apply inr_true in Hin. rewrite pow2_0 in Hin. assert (k = i) by lia. subst k.
+      cbn in HA, HB. rewrite HA in HB. injection HB as HB. apply H_inj in HB. injection HB as HB. exact HB.
+    - pose proof (pow2_pos h) as Hp. apply inr_true in Hin. rewrite pow2_S in Hin.
+      cbn [Lefts] in HA, HB. destruct (s <? i + pow2 h) eqn:Hs.
+      + apply N.ltb_lt in Hs. apply (IH i); [apply inr_true; lia|exact HA|exact HB|lia|lia].
+      + apply N.ltb_ge in Hs. destruct HA as [HA1 HA2]. destruct HB as [HB1 HB2].
+        destruct (N.lt_ge_cases k (i + pow2 h)) as [Hlt|Hge].
+        * rewrite HA1 in HB1. injection HB1 as HB1. unfold HistSpec.fz in HB1.
+          apply node_inj in HB1; [|lia|lia]. destruct HB1 as [Hag _]. apply Hag; lia.
+        * apply (IH (i + pow2 h)); [apply inr_true; lia|exact HA2|exact HB2|lia|lia].
+  Qed.
+
+  Lemma vstart_sound (A : N -> E) (c : cache D) s h : forall i v,
+    inr s i h = true -> i <= v ->
+    interp c (@vstart_go E s i h) = Some (node A v i h) ->
+    N.min v (i + pow2 h - 1) = s /\ Lefts c A s i h.
+  Proof.
+    induction h as [|h IH]; intros i v Hin Hv Heq.
+    - apply inr_true in Hin. rewrite pow2_0 in *. cbn in Heq |- *. split; [lia|].
+      assert (s = i) by lia. subst s. exact Heq.
+    - pose proof (pow2_pos h) as Hp. apply inr_true in Hin. rewrite pow2_S in *.
+      cbn [vstart_go HistSpec.node Lefts] in *.
+      destruct (s <? i + pow2 h) eqn:Hs.
+      + apply N.ltb_lt in Hs. cbn [HistModel.interp] in Heq.
+        destruct (interp c (vstart_go s i h)) as [lh|] eqn:Hl; try discriminate Heq.
+        injection Heq as Heq. destruct (v <? i + pow2 h) eqn:Hc; apply H_inj in Heq; try discriminate Heq.
+        injection Heq as Heq. subst lh. apply N.ltb_lt in Hc.
+        destruct (IH i v ltac:(apply inr_true; lia) Hv Hl) as [Hm HL]. split; [lia|exact HL].
+      + apply N.ltb_ge in Hs. cbn [HistModel.interp] in Heq.
+        destruct (c (i, h)) as [lh|] eqn:Hg; try discriminate Heq.
+        destruct (interp c (vstart_go s (i + pow2 h) h)) as [rh|] eqn:Hr; try discriminate Heq.
+        injection Heq as Heq. destruct (v <? i + pow2 h) eqn:Hc; apply H_inj in Heq; try discriminate Heq.
+        injection Heq as Hlh Hrh. subst lh rh. apply N.ltb_ge in Hc.
+        destruct (IH (i + pow2 h) v ltac:(apply inr_true; lia) Hc Hr) as [Hm HL].
+        split; [lia|]. split; [|exact HL]. f_equal. apply frozen_fz. lia.
+  Qed.
+
+  (* the end recomputation pins the claimed end version ... *)
+  Lemma vend_version (B : N -> E) (c : cache D) s e h : forall i v,
+    inr e i h = true -> i <= v ->
+    interp c (@vend_go E s e i h) = Some (node B v i h) ->
+    N.min v (i + pow2 h - 1) = e.
+  Proof.
+    induction h as [|h IH]; intros i v Hin Hv Heq.
+    - apply inr_true in Hin. rewrite pow2_0 in *. lia.
+    - pose proof (pow2_pos h) as Hp. cbn [vend_go] in Heq. rewrite Hin, orb_true_r in Heq. cbn [negb] in Heq.
+      apply inr_true in Hin. rewrite pow2_S in *. cbn [HistSpec.node] in Heq.
+      destruct (e <? i + pow2 h) eqn:He; cbn [HistModel.interp] in Heq;
+        destruct (interp c (vend_go s e i h)) as [lh|] eqn:Hl; try discriminate Heq.
+      + apply N.ltb_lt in He. injection Heq as Heq.
+        destruct (v <? i + pow2 h) eqn:Hc; apply H_inj in Heq; try discriminate Heq.
+        injection Heq as Heq. subst lh. apply N.ltb_lt in Hc.
+        pose proof (IH i v ltac:(apply inr_true; lia) Hv Hl). lia.
+      + apply N.ltb_ge in He.
+        destruct (interp c (vend_go s e (i + pow2 h) h)) as [rh|] eqn:Hr; try discriminate Heq.
+        injection Heq as Heq.
+        destruct (v <? i + pow2 h) eqn:Hc; apply H_inj in Heq; try discriminate Heq.
+        injection Heq as _ Hrh. subst rh. apply N.ltb_ge in Hc.
+        pose proof (IH (i + pow2 h) v ltac:(apply inr_true; lia) Hc Hr). lia.
+  Qed.
+
+  (* ... and the path entries along the way to leaf s *)
+  Lemma vend_lefts (B : N -> E) (c : cache D) s e h : forall i v,
+    s <= e -> inr s i h = true -> i <= v ->
+    interp c (@vend_go E s e i h) = Some (node B v i h) ->
+    Lefts c B s i h.
+  Proof.
+    induction h as [|h IH]; intros i v Hse Hin Hv Heq.
+    - cbn [vend_go] in Heq. rewrite Hin in Heq. cbn in Heq |- *.
+      apply inr_true in Hin. rewrite pow2_0 in Hin. exact Heq.
+    - pose proof (pow2_pos h) as Hp. cbn [vend_go] in Heq. rewrite Hin in Heq. cbn [orb negb] in Heq.
+      apply inr_true in Hin. rewrite pow2_S in *. cbn [HistSpec.node Lefts] in *.
+      destruct (e <? i + pow2 h) eqn:He; cbn [HistModel.interp] in Heq;
+        destruct (interp c (vend_go s e i h)) as [lh|] eqn:Hl; try discriminate Heq.
+      + apply N.ltb_lt in He. injection Heq as Heq.
+        destruct (v <? i + pow2 h) eqn:Hc; apply H_inj in Heq; try discriminate Heq.
+        injection Heq as Heq. subst lh.
+        assert (Hs : (s <? i + pow2 h) = true) by (apply N.ltb_lt; lia). rewrite Hs.
+        apply (IH i v); [exact Hse|apply inr_true; lia|exact Hv|exact Hl].
+      + apply N.ltb_ge in He.
+        destruct (interp c (vend_go s e (i + pow2 h) h)) as [rh|] eqn:Hr; try discriminate Heq.
+        injection Heq as Heq.
+        destruct (v <? i + pow2 h) eqn:Hc; apply H_inj in Heq; try discriminate Heq.
+        injection Heq as Hlh Hrh. subst lh rh. apply N.ltb_ge in Hc.
+        destruct (s <? i + pow2 h) eqn:Hs.
+        * apply N.ltb_lt in Hs. apply (IH i v); [exact Hse|apply inr_true; lia|exact Hv|exact Hl].
+        * apply N.ltb_ge in Hs. split.
+          -- (* the left child holds neither s nor e: it is read from the path *)
+             assert (Hn : inr s i h || inr e i h = false).
+             { apply orb_false_iff. split; apply inr_false; lia. }
+             destruct h as [|h']; cbn [vend_go] in Hl; rewrite Hn in Hl; cbn [negb HistModel.interp] in Hl;
+               rewrite Hl; f_equal; apply frozen_fz; lia.
+          -- apply (IH (i + pow2 h) v); [exact Hse|apply inr_true; lia|exact Hc|exact Hr].
+  Qed.
+
+  Lemma root_is_leaf (A : N -> E) v e i : root A v = H (HLeaf e i) -> v = 0.
+  Proof.
+    unfold HistSpec.root. destruct (bitlen v) as [|h] eqn:Hb; [intros _; apply bitlen_0; exact Hb|].
+    cbn [HistSpec.node]. destruct (v <? _); intros Heq; apply H_inj in Heq; discriminate.
+  Qed.
+
+  Lemma vstart_go_shape s i h : (0 < h)%nat ->
+    (exists i0 h0 l, @vstart_go E s i h = OPartial i0 h0 l) \/ (exists i0 h0 l r, @vstart_go E s i h = OInner i0 h0 l r).
+  Proof. destruct h as [|h]; [lia|]. intros _. cbn [vstart_go]. destruct (s <? _); eauto 8. Qed.
+  Lemma vstart_go_pos s i h : op_pos (@vstart_go E s i h) = (i, h).
+  Proof. destruct h as [|h]; cbn [vstart_go]; [reflexivity|]. destruct (s <? _); reflexivity. Qed.
+  Lemma vend_go_shape s e i h : (0 < h)%nat -> inr e i h = true ->
+    (exists i0 h0 l, @vend_go E s e i h = OPartial i0 h0 l) \/ (exists i0 h0 l r, @vend_go E s e i h = OInner i0 h0 l r).
+  Proof. destruct h as [|h]; [lia|]. intros _ Hin. cbn [vend_go]. rewrite Hin, orb_true_r. cbn [negb]. destruct (e <? _); eauto 8. Qed.
+  Lemma vend_go_pos s e i h : op_pos (@vend_go E s e i h) = (i, h).
+  Proof. destruct h as [|h]; cbn [vend_go]; destruct (negb _); try reflexivity. destruct (e <? _); reflexivity. Qed.
+
+  (* IncrementalProof.Verify accepted against the authentic digest of log A at version i' and of log B at
+     version j': the two logs agree on every event up to the claimed start version, and (except for the
+     degenerate proof with end version 0, which reads both digests from the same path entry) the claimed
+     versions are the authentic ones. *)
+  Theorem incremental_sound (A B : N -> E) (c : cache D) s e i' j' :
+    s <= e ->
+    incremental_roots D E V H c s e = (Some (root A i'), Some (root B j')) ->
+    (forall k, k <= s -> A k = B k) /\
+    (0 < e -> s = i' /\ e = j') /\
+    (e = 0 -> i' = j' /\ forall k, k <= i' -> A k = B k).
+  Proof.
+    unfold incremental_roots, pruneToVerifyIncrementalStart, pruneToVerifyIncrementalEnd.
+    intros Hse Heq. injection Heq as Hs He.
+    pose proof (bitlen_gt s) as Hgs. pose proof (bitlen_gt e) as Hge.
+    destruct (N.eq_dec e 0) as [He0|He0].
+    { (* degenerate: both recomputations just read path entry (0,0) *)
+      subst e. assert (s = 0) by lia. subst s. change (bitlen 0) with O in Hs, He.
+      cbn [vstart_go HistModel.interp] in Hs. cbn [vend_go] in He.
+      assert (He' : root A i' = root B j').
+      { destruct (negb _) in He; cbn [HistModel.interp] in He; rewrite Hs in He; injection He as He; exact He. }
+      destruct (root_inj A B i' j' He') as [Hij Hag]. split; [|split].
+      - intros k Hk. apply Hag. lia.
+      - lia.
+      - intros _. split; [exact Hij|exact Hag]. }
+    assert (Hbe : (0 < bitlen e)%nat).
+    { destruct (bitlen e) eqn:Hb; [apply bitlen_0 in Hb; lia|lia]. }
+    (* end tree: authentic height, claimed end version, path entries along s *)
+    assert (HhE : bitlen e = bitlen j').
+    { pose proof (interp_root_height B c _ j' He) as Hh. rewrite vend_go_pos in Hh. cbn in Hh. apply Hh.
+      destruct (vend_go_shape s e 0 (bitlen e) Hbe ltac:(apply inr_true; lia)) as [X|X]; [right; left|right; right]; exact X. }
+    unfold HistSpec.root in He. rewrite <- HhE in He.
+    pose proof (vend_version B c s e (bitlen e) 0 j' ltac:(apply inr_true; lia) ltac:(lia) He) as Hve.
+    pose proof (vend_lefts B c s e (bitlen e) 0 j' Hse ltac:(apply inr_true; lia) ltac:(lia) He) as HLB.
+    pose proof (bitlen_gt j') as Hgj. rewrite <- HhE in Hgj.
+    assert (Hej : e = j') by lia.
+    (* restrict the end-tree facts to the start tree's height *)
+    assert (Hbl : (bitlen s <= bitlen e)%nat).
+    { destruct (le_lt_dec (bitlen s) (bitlen e)) as [Hl|Hl]; [exact Hl|exfalso].
+      destruct (N.eq_dec s 0) as [->|Hs0]; [cbn in Hl; lia|].
+      pose proof (bitlen_le s ltac:(lia)) as Hls.
+      assert (Hm : 2 * pow2 (bitlen e) <= pow2 (bitlen s)).
+      { clear -Hl. induction Hl as [|m Hm IHm]; [rewrite pow2_S; lia|]. rewrite pow2_S. lia. }
+      lia. }
+    assert (HLBs : Lefts c B s 0 (bitlen s)).
+    { clear -HLB Hbl Hgs. revert Hbl HLB. generalize (bitlen e) as he.
+      induction he as [|he IH]; intros Hbl HLB.
+      - assert (Hz : bitlen s = O) by lia. rewrite Hz. exact HLB.
+      - destruct (Nat.eq_dec (bitlen s) (S he)) as [Heq|Hne]; [rewrite Heq; exact HLB|].
+        apply IH; [lia|]. cbn [Lefts] in HLB.
+        assert (Hmono : pow2 (bitlen s) <= pow2 he).
+        { assert (Hle' : (bitlen s <= he)%nat) by lia. clear -Hle'.
+          induction Hle' as [|m Hm IHm]; [lia|]. rewrite pow2_S. pose proof (pow2_pos m). lia. }
+        assert (Hs : (s <? 0 + pow2 he) = true) by (apply N.ltb_lt; lia). rewrite Hs in HLB. exact HLB. }
+    destruct (bitlen s) as [|hs] eqn:Hbs.
+    - (* s = 0: the start digest is read from path entry (0,0), which the end tree pins to leaf 0 of B *)
+      apply bitlen_0 in Hbs. subst s. cbn in Hs, HLBs. rewrite Hs in HLBs. injection HLBs as HLBs.
+      pose proof (root_is_leaf A i' _ _ HLBs) as Hi0. subst i'.
+      unfold HistSpec.root in HLBs. cbn in HLBs. apply H_inj in HLBs. injection HLBs as HLBs.
+      repeat split; try lia.
+      intros k Hk. assert (k = 0) by lia. subst k. exact HLBs.
+    - assert (HhS : S hs = bitlen i').
+      { pose proof (interp_root_height A c _ i' Hs) as Hh. rewrite vstart_go_pos in Hh. cbn in Hh. apply Hh.
+        destruct (vstart_go_shape s 0 (S hs) ltac:(lia)) as [X|X]; [right; left|right; right]; exact X. }
+      unfold HistSpec.root in Hs. rewrite <- HhS in Hs.
+      destruct (vstart_sound A c s (S hs) 0 i' ltac:(apply inr_true; lia) ltac:(lia) Hs) as [Hvs HLA].
+      pose proof (bitlen_gt i') as Hgi. rewrite <- HhS in Hgi.
+      assert (Hsi : s = i') by lia.
+      repeat split; try lia.
+      intros k Hk. apply (lefts_agree c A B s (S hs) 0); [apply inr_true; lia|exact HLA|exact HLBs|lia|exact Hk].
+  Qed.
+
+  (* every entry the end recomputation reads is pinned by the authentic end digest *)
+  Lemma vend_unique (A : N -> E) (c : cache D) s e h : forall i,
+    i <= e ->
+    interp c (@vend_go E s e i h) = Some (node A e i h) ->
+    forall p, In p (ereads s e i h) -> c p = Some (nodeP A e p).
+  Proof.
+    induction h as [|h IH]; intros i Hi Heq p Hp.
+    - cbn [vend_go ereads] in *. destruct (negb _); cbn in Heq; destruct Hp as [<-|[]]; exact Heq.
+    - pose proof (pow2_pos h) as Hpp. cbn [vend_go ereads] in *. destruct (negb _).
+      + destruct Hp as [<-|[]]. exact Heq.
+      + cbn [HistSpec.node] in Heq.
+        destruct (e <? i + pow2 h) eqn:He; cbn [HistModel.interp] in Heq;
+          destruct (interp c (vend_go s e i h)) as [lh|] eqn:Hl; try discriminate Heq.
+        * injection Heq as Heq. apply H_inj in Heq. injection Heq as Heq. subst lh.
+          rewrite app_nil_r in Hp. apply (IH i); [exact Hi|exact Hl|exact Hp].
+        * destruct (interp c (vend_go s e (i + pow2 h) h)) as [rh|] eqn:Hr; try discriminate Heq.
+          injection Heq as Heq. apply H_inj in Heq. injection Heq as Hlh Hrh. subst lh rh.
+          apply N.ltb_ge in He. apply in_app_or in Hp. destruct Hp as [Hp|Hp].
+          -- apply (IH i); [exact Hi|exact Hl|exact Hp].
+          -- apply (IH (i + pow2 h)); [exact He|exact Hr|exact Hp].
+  Qed.
+
+  Lemma checkc_keys_read (st : cache D) s e h : forall i p d,
+    In (p, d) (collect st (@checkc_go E s e i h)) -> In p (ereads s e i h).
+  Proof.
+    induction h as [|h IH]; intros i p d Hin.
+    - cbn [checkc_go ereads] in *. destruct (negb _); cbn in Hin; destruct (st (i, O)); cbn in Hin;
+        try contradiction; destruct Hin as [Hin|[]]; injection Hin as <- _; left; reflexivity.
+    - cbn [checkc_go ereads] in *. destruct (negb _).
+      + cbn in Hin. destruct (st (i, S h)); cbn in Hin; try contradiction.
+        destruct Hin as [Hin|[]]. injection Hin as <- _. left. reflexivity.
+      + destruct (e <? i + pow2 h); cbn [HistModel.collect] in Hin.
+        * rewrite app_nil_r. apply (IH i p d). exact Hin.
+        * apply in_app_or in Hin. apply in_or_app. destruct Hin as [Hin|Hin]; [left; apply (IH i p d)|right; apply (IH (i + pow2 h) p d)]; exact Hin.
+  Qed.
+
+  (* Altering any entry of a genuine incremental proof makes verification fail: whatever else the altered
+     path c' contains, if it disagrees with the genuine path on one of its entries the recomputed end root
+     is not the authentic one. *)
+  Theorem incremental_reject_altered_entry (A : N -> E) (st : cache D) vs s e path :
+    StoreOK A st vs -> s <= e -> e <= vs ->
+    prove_consistency D E V H st s e = Some path ->
+    forall k d (c' : cache D), In (k, d) path -> c' k <> Some d ->
+    incremental_roots D E V H c' s e <> (Some (root A s), Some (root A e)).
+  Proof.
+    intros Hst Hse He Hpath k d c' Hin Hne Hacc.
+    unfold prove_consistency, pruneToCheckConsistency in Hpath.
+    destruct (checkc_collect A st vs Hst s e (bitlen e) 0 (aligned_0 _) He Hse ltac:(lia)) as (_ & Hvals & _).
+    destruct (interp st (checkc_go s e 0 (bitlen e))); [|discriminate]. injection Hpath as <-.
+    unfold incremental_roots, pruneToVerifyIncrementalEnd in Hacc. injection Hacc as _ Hend.
+    apply Hne. rewrite (Hvals k d Hin).
+    apply (vend_unique A c' s e (bitlen e) 0 ltac:(lia) Hend).
+    apply (checkc_keys_read st s e (bitlen e) 0 k d Hin).
+  Qed.
+
+  (* ------------------------------------------------------------------ insertion (C04 history half, C05) *)
+  (* g is what the insert visitor reads: LRU write cache over the store *)
+  Definition GetOK (A : N -> E) (g : cache D) (v : N) : Prop :=
+    forall i h, aligned i h -> i + pow2 h <= v -> g (i, h) = Some (fz A i h).
+
+  Notation interp_ins := (interp_ins D E V H).
+
+  Definition NewOK (A : N -> E) (v : N) (l : list (pos * D)) : Prop :=
+    forall p d, In (p, d) l -> d = fz A (fst p) (snd p) /\ aligned (fst p) (snd p) /\ fst p + pow2 (snd p) = v + 1.
+
+  (* One insertion: the traversal of the subtree (i,h) containing v returns the spec hash, puts/mutates
+     exactly the nodes that become complete at v, each with its frozen hash. *)
+  Lemma insert_correct (A : N -> E) (base : cache D) v h : forall i puts muts,
+    aligned i h -> inr v i h = true ->
+    GetOK A (ins_get base puts) v ->
+    exists newp,
+      interp_ins base (@insert_go E v (A v) i h) (puts, muts) = Some (node A v i h, (newp ++ puts, newp ++ muts)) /\
+      NewOK A v newp /\
+      (forall j k, aligned j k -> j + pow2 k = v + 1 -> i <= j -> (k <= h)%nat -> In (j, k) (map fst newp)).
+  Proof.
+    induction h as [|h IH]; intros i puts muts Ha Hin Hg.
+    - apply inr_true in Hin. rewrite pow2_0 in Hin. assert (i = v) by lia. subst i.
+      cbn [insert_go HistModel.interp_ins op_pos hleaf HistSpec.node].
+      exists [((v, O), H (HLeaf (A v) v))]. split; [reflexivity|]. split.
+      + intros p d [Hp|[]]. injection Hp as <- <-. cbn [fst snd]. unfold HistSpec.fz. rewrite pow2_0.
+        replace (v + 1 - 1) with v by lia. cbn [HistSpec.node]. split; [reflexivity|split; [exact Ha|lia]].
+      + intros j k _ Hjk Hj Hk. assert (k = O) by lia. subst k. rewrite pow2_0 in Hjk. assert (j = v) by lia. subst j.
+        left. reflexivity.
+    - pose proof (pow2_pos h) as Hp. apply inr_true in Hin. rewrite pow2_S in Hin.
+      cbn [insert_go HistSpec.node].
+      destruct (v <? i + pow2 h) eqn:Hc.
+      + apply N.ltb_lt in Hc.
+        destruct (IH i puts muts (aligned_left _ _ Ha) ltac:(apply inr_true; lia) Hg) as (newp & Hrun & Hnew & Hcov).
+        cbn [HistModel.interp_ins]. rewrite Hrun. exists newp. split; [reflexivity|]. split; [exact Hnew|].
+        intros j k Haj Hjk Hj Hk. destruct (Nat.eq_dec k (S h)) as [->|Hne]; [|apply Hcov; [exact Haj|exact Hjk|exact Hj|lia]].
+        exfalso. destruct Ha as [a ->]. destruct Haj as [b ->]. rewrite pow2_S in *. nia.
+      + apply N.ltb_ge in Hc.
+        assert (Hgl : ins_get base puts (i, h) = Some (fz A i h)).
+        { apply Hg; [apply aligned_left; exact Ha|lia]. }
+        destruct (IH (i + pow2 h) puts muts (aligned_right _ _ Ha) ltac:(apply inr_true; lia) Hg) as (newp & Hrun & Hnew & Hcov).
+        assert (Hlv : fz A i h = node A v i h) by (symmetry; apply frozen_fz; lia).
+        destruct (i + pow2 (S h) - 1 <=? v) eqn:Hfr.
+        * apply N.leb_le in Hfr. rewrite pow2_S in Hfr.
+          cbn [HistModel.interp_ins op_pos]. unfold ins_get in Hgl. cbn [fst]. unfold ins_get. rewrite Hgl.
+          rewrite Hrun. rewrite Hlv.
+          exists (((i, S h), H (HFull (node A v i h) (node A v (i + pow2 h) h) i (S h))) :: newp).
+          split; [reflexivity|]. split.
+          -- intros p d [Hpd|Hpd]; [|apply Hnew; exact Hpd]. injection Hpd as <- <-. cbn [fst snd].
+             rewrite pow2_S. split; [|split; [exact Ha|lia]].
+             unfold HistSpec.fz. cbn [HistSpec.node]. rewrite pow2_S.
+             replace (i + 2 * pow2 h - 1 <? i + pow2 h) with false by (symmetry; apply N.ltb_ge; lia).
+             f_equal. f_equal; apply frozen_stable; lia.
+          -- intros j k Haj Hjk Hj Hk. destruct (Nat.eq_dec k (S h)) as [->|Hne].
+             ++ left. cbn [fst]. f_equal. destruct Ha as [a ->]. destruct Haj as [b ->]. rewrite pow2_S in *. nia.
+             ++ right. apply Hcov; [exact Haj|exact Hjk| |lia].
+                (* a node of height <= h completing at v lies in the right half *)
+                destruct (N.lt_ge_cases j (i + pow2 h)) as [Hlt|Hge]; [exfalso|exact Hge].
+                pose proof (aligned_step j k (i + pow2 h) h Haj (aligned_right _ _ Ha) ltac:(lia) Hlt). lia.
+        * apply N.leb_gt in Hfr. rewrite pow2_S in Hfr.
+          cbn [HistModel.interp_ins op_pos]. unfold ins_get in Hgl. cbn [fst]. unfold ins_get. rewrite Hgl.
+          rewrite Hrun. rewrite Hlv.
+          exists newp. split; [reflexivity|]. split; [exact Hnew|].
+          intros j k Haj Hjk Hj Hk. destruct (Nat.eq_dec k (S h)) as [->|Hne].
+          -- exfalso. destruct Ha as [a ->]. destruct Haj as [b ->]. rewrite pow2_S in *. nia.
+          -- apply Hcov; [exact Haj|exact Hjk| |lia].
+             destruct (N.lt_ge_cases j (i + pow2 h)) as [Hlt|Hge]; [exfalso|exact Hge].
+             pose proof (aligned_step j k (i + pow2 h) h Haj (aligned_right _ _ Ha) ltac:(lia) Hlt). lia.
+  Qed.
+
+  Lemma pow2_mono k h : (k <= h)%nat -> pow2 k <= pow2 h.
+  Proof. intros Hkh. induction Hkh as [|m Hm IHm]; [lia|]. rewrite pow2_S. pose proof (pow2_pos m). lia. Qed.
+
+  Lemma pow2_le_inv k h : pow2 k <= pow2 h -> (k <= h)%nat.
+  Proof.
+    intros Hle. destruct (le_lt_dec k h) as [Hl|Hl]; [exact Hl|exfalso].
+    pose proof (pow2_mono (S h) k Hl) as Hm. rewrite pow2_S in Hm. pose proof (pow2_pos h). lia.
+  Qed.
+
+  Lemma getok_extend (A : N -> E) (base : cache D) puts newp v :
+    GetOK A (ins_get base puts) v -> NewOK A v newp ->
+    (forall j k, aligned j k -> j + pow2 k = v + 1 -> In (j, k) (map fst newp)) ->
+    GetOK A (ins_get base (newp ++ puts)) (v + 1).
+  Proof.
+    intros Hg Hnew Hcov j k Haj Hjk. unfold ins_get. rewrite assoc_app.
+    destruct (assoc pos_eqb (j, k) newp) as [d|] eqn:Has.
+    - apply assoc_in in Has. destruct (Hnew _ _ Has) as [-> _]. reflexivity.
+    - apply assoc_none_inv in Has.
+      assert (Hlt : j + pow2 k <= v).
+      { destruct (N.eq_dec (j + pow2 k) (v + 1)) as [Heq|Hne]; [|lia]. exfalso. apply Has. apply Hcov; assumption. }
+      exact (Hg j k Haj Hlt).
+  Qed.
+
+  (* HistoryTree.Add for version v on a store/write cache holding every node completed before v:
+     returns the canonical root, and the write cache + mutations now hold every node completed up to v *)
+  Theorem insert_root (A : N -> E) (base : cache D) v puts muts :
+    GetOK A (ins_get base puts) v ->
+    exists newp,
+      interp_ins base (pruneToInsert v (A v)) (puts, muts) = Some (root A v, (newp ++ puts, newp ++ muts)) /\
+      NewOK A v newp /\ GetOK A (ins_get base (newp ++ puts)) (v + 1).
+  Proof.
+    intros Hg. unfold pruneToInsert, HistSpec.root. pose proof (bitlen_gt v) as Hgt.
+    destruct (insert_correct A base v (bitlen v) 0 puts muts (aligned_0 _) ltac:(apply inr_true; lia) Hg)
+      as (newp & Hrun & Hnew & Hcov).
+    exists newp. split; [exact Hrun|]. split; [exact Hnew|].
+    apply getok_extend; [exact Hg|exact Hnew|].
+    intros j k Haj Hjk. apply Hcov; [exact Haj|exact Hjk|lia|].
+    apply pow2_le_inv. lia.
+  Qed.
+
+  (* HistoryTree.AddBulk / any sequence of Adds: the k-th digest is root (v+k), whatever the grouping *)
+  Theorem bulk_correct (A : N -> E) (base : cache D) n : forall v puts muts,
+    GetOK A (ins_get base puts) v ->
+    exists newp,
+      bulk_go D E V H base (map A (map (fun k => v + N.of_nat k) (seq 0 n))) v (puts, muts)
+        = Some (map (fun k => root A (v + N.of_nat k)) (seq 0 n), (newp ++ puts, newp ++ muts)) /\
+      (forall p d, In (p, d) newp -> d = fz A (fst p) (snd p)) /\
+      GetOK A (ins_get base (newp ++ puts)) (v + N.of_nat n).
+  Proof.
+    induction n as [|n IH]; intros v puts muts Hg.
+    - exists []. cbn. split; [reflexivity|]. split; [intros ? ? []|]. rewrite N.add_0_r. exact Hg.
+    - cbn [seq map bulk_go]. rewrite N.add_0_r.
+      destruct (insert_root A base v puts muts Hg) as (np1 & Hrun1 & Hnew1 & Hg1).
+      rewrite Hrun1.
+      destruct (IH (v + 1) (np1 ++ puts) (np1 ++ muts) Hg1) as (np2 & Hrun2 & Hnew2 & Hg2).
+      rewrite <- seq_shift, !map_map.
+      assert (Hm1 : map (fun x => A (v + N.of_nat (S x))) (seq 0 n) = map A (map (fun k => v + 1 + N.of_nat k) (seq 0 n))).
+      { rewrite map_map. apply map_ext. intros a. f_equal. lia. }
+      assert (Hm2 : map (fun x => root A (v + N.of_nat (S x))) (seq 0 n) = map (fun k => root A (v + 1 + N.of_nat k)) (seq 0 n)).
+      { apply map_ext. intros a. f_equal. lia. }
+      rewrite Hm1, Hrun2, Hm2.
+      exists (np2 ++ np1). rewrite <- !app_assoc. split; [reflexivity|]. split.
+      + intros p d Hin. apply in_app_or in Hin. destruct Hin as [Hin|Hin]; [apply Hnew2; exact Hin|apply (Hnew1 p d Hin)].
+      + replace (v + N.of_nat (S n)) with (v + 1 + N.of_nat n) by lia. exact Hg2.
   Qed.
 End Proofs.
